@@ -68,6 +68,42 @@ def generate(rng, n, tier="quick"):
                     case["id"] = "%s-x%06d" % (ID, i)
                     oc = ref_outcome({"main": ast}, "main", data)
                     out.append((case, {"mode": "grid", "oracle": list(oc), "shape": [list(kinds), [v[0] for v in vals], has_else]}))
+    # EXHAUSTIVE: chains of 2..3 links whose bodies may be EMPTY – every subset of the link bodies and the final else body empty,
+    # every kind in every link, every combination of holding / failing conditions: the selected branch is rendered, an empty one
+    # as nothing, and a final else stays the final else whatever stands before it
+    T = {"if": True, "unless": False, "with": {"a": 1}, "each": [1]}
+    F = {"if": False, "unless": True, "with": False, "each": []}
+    eb = 0
+    for L in (2, 3):
+        for kinds in itertools.product(["if", "unless", "with", "each"] if L == 2 else ["if", "with", "each"], repeat=L):
+            for holds in itertools.product([True, False], repeat=L):
+                for empty in itertools.product([False, True], repeat=L):
+                    if L == 3 and not any(empty):
+                        continue
+                    for els in (None, "<E>", ""):
+                        data = {}
+                        src = "["
+                        for j, k in enumerate(kinds):
+                            data["c%d" % j] = (T if holds[j] else F)[k]
+                            src += ("{{#%s c%d}}" % (k, j) if j == 0 else "{{else %s c%d}}" % (k, j)) + ("" if empty[j] else "<%d>" % j)
+                        if els is not None:
+                            src += ("{{else}}" if eb % 2 == 0 else "{{^}}") + els
+                        src += "{{/%s}}]" % kinds[0]
+                        hit = [j for j in range(L) if holds[j]]
+                        exp = "[" + (("" if empty[hit[0]] else "<%d>" % hit[0]) if hit else (els or "")) + "]"
+                        case = session({}, [("main", src)], {"api": "render", "name": "main"}, data)
+                        case["id"] = "%s-eb%05d" % (ID, eb)
+                        eb += 1
+                        out.append((case, {"mode": "emptybody", "oracle": ["must", exp], "shape": [list(kinds), list(holds), list(empty), els]}))
+                        if "with" in kinds or "each" in kinds:
+                            # the same in STRICT mode: a failing `with` is an error only when NO else follows it – an else that is
+                            # there and empty is an else
+                            oc = ["must", exp]
+                            if not hit and els is None and kinds[-1] == "with":
+                                oc = ["musterr", ["MissingVariable"]]
+                            case = session({"strict": True}, [("main", src)], {"api": "render", "name": "main"}, data)
+                            case["id"] = "%s-eb%05ds" % (ID, eb - 1)
+                            out.append((case, {"mode": "emptybody", "oracle": oc, "shape": [list(kinds), list(holds), list(empty), els, "strict"]}))
     # includeZero
     for vn, vv in VALUES:
         for neg in (False, True):
